@@ -768,15 +768,18 @@ func checkAndDeleteKey(ctx context.Context,
 	if err = backoff.Retry(func() error {
 		var e error
 		attrs, e = blob.GetAttr(ctx, key)
-		if !errors.Is(e, status.ErrNotExists) {
-			return err
+		if e != nil && !errors.Is(e, status.ErrNotExists) {
+			return e
 		}
 
 		return nil
 	},
 		backoff.WithContext(insistantBackoff(), ctx),
 	); err != nil {
+		// we don't know how old this blob is: never delete it on a guess
 		logger.Error("retrieving blob attributes", zap.Error(err))
+
+		return err
 	}
 
 	// the blob has been created after the index: skip
@@ -799,8 +802,8 @@ func checkAndDeleteKey(ctx context.Context,
 	// proceed with deletion from the blob store
 	if err = backoff.Retry(func() error {
 		e := blob.Delete(ctx, key)
-		if !errors.Is(e, status.ErrNotExists) {
-			return err
+		if e != nil && !errors.Is(e, status.ErrNotExists) {
+			return e
 		}
 		// under high pressure, google API often fails with: "googleapi: Error 503: We encountered an internal error. Please try again., backendError"
 
